@@ -7,6 +7,7 @@ iso_id / ==; minimally different content must give a different one.
 import copy
 import json
 import os
+import tempfile
 import subprocess
 import sys
 
@@ -202,9 +203,29 @@ def _run_point(case, ctx):
     try:
         from pygaps.parsing.aif import isotherm_from_aif
         from pygaps.parsing.csv import isotherm_from_csv
+        plain8 = gen.build_point(s8, "lists")
+        if case["seed"] % 3 == 0 and len(s8["branch"]) >= 3:
+            # an adsorption - desorption - readsorption record (AIF keeps two loops, one per branch, and cannot carry the
+            # interleaving: it gets the record before this step)
+            s8["branch"] = [0, 1, 0] + [r.randint(0, 1) for _ in s8["branch"][3:]]
+        if case["seed"] % 3 == 1:
+            s8["pressure"][0], s8["loading"][0] = 0.0, 0.0  # (a record that starts with the origin point)
         ref8 = gen.build_point(s8, "lists")
         _same(ctx, "csv-parse", ref8, isotherm_from_csv(ref8.to_csv()), s8)
-        _same(ctx, "aif-parse", ref8, isotherm_from_aif(ref8.to_aif()), s8)
+        aif8 = ref8 if case["seed"] % 3 else plain8
+        _same(ctx, "aif-parse", aif8, isotherm_from_aif(aif8.to_aif()), s8)
+        from pygaps.parsing.json import isotherm_from_json
+        _same(ctx, "json-parse", ref8, isotherm_from_json(ref8.to_json()), s8)
+        from pygaps.parsing.excel import isotherm_from_xl
+        xp = os.path.join(tempfile.gettempdir(), "pgverif-c05-%d-%d.xls" % (os.getpid(), case["seed"]))
+        try:
+            ref8.to_xl(xp)
+            _same(ctx, "excel-parse", ref8, isotherm_from_xl(xp), s8)
+        finally:
+            try:
+                os.unlink(xp)
+            except OSError:
+                pass
     except Exception as exc:
         ctx.violation("identity/text-export-parse-raises", "CSV / AIF export/parse raised", exc=exc, spec=s8)
     # reconstructed copy
